@@ -54,6 +54,17 @@ func genCfgFor(r *rand.Rand, i int, o *campOpts) *cons.GenCfg {
 	tie := i%3 == 2
 	nEp := 1 + r.Intn(o.maxEpochs)
 	plans := cons.RandomPlans(r, nEp, o.maxN, tie, o.cheat)
+	sleeperRegime := i%4 == 1
+	if sleeperRegime {
+		// small sets where the canonical-first validator sleeps and catches up with multi-frame jumps: this is
+		// where one root gets elected Atropos of two consecutive frames (a block that delivers nothing)
+		plans = cons.RandomPlans(r, nEp, -4, false, cons.CheatNone)
+		for _, p := range plans {
+			for k := range p.Lag {
+				p.Lag[k] = 0
+			}
+		}
+	}
 	n := len(plans[0].IDs)
 	cfg := &cons.GenCfg{Plans: plans, TieHeavy: tie,
 		EventsPer:  minI(o.maxEvents, maxI(o.minEvents, n*(15+r.Intn(50)))),
@@ -67,6 +78,11 @@ func genCfgFor(r *rand.Rand, i int, o *campOpts) *cons.GenCfg {
 	}
 	if r.Intn(5) == 0 {
 		cfg.MinParents = 0 // some events link to nobody
+	}
+	cfg.Sleeper = i%4 == 1
+	if sleeperRegime {
+		cfg.MinParents, cfg.MaxParents, cfg.PartProb = 1, 3, 0
+		cfg.EventsPer = minI(o.maxEvents, 40*n)
 	}
 	return cfg
 }
@@ -116,8 +132,11 @@ func runCampaign(c *ev.Ctx, o *campOpts) {
 			if j == 0 {
 				kind = cons.OrdRandom
 			}
-			icfg := cons.InstCfg{Index: cons.IndexCfg(j % 3)}
-			t := cons.Run(d, r, cons.RunOpts{Kinds: func(int) cons.OrderKind { return kind }, Inst: icfg, WithRef: true, ProbeRoots: o.probeRoots && j%2 == 1})
+			icfg := cons.InstCfg{Index: cons.IndexCfg(j % 3), ReuseVals: j%2 == 0}
+			t := cons.Run(d, r, cons.RunOpts{Kinds: func(int) cons.OrderKind { return kind }, Inst: icfg, WithRef: true, ProbeRoots: o.probeRoots && j%2 == 1, WarmReset: j == 2})
+			if j == 2 {
+				c.Count("runs_on_instance_reset_from_other_epoch", 1)
+			}
 			c.Eval(1)
 			c.Count("events_processed", int64(t.Processed))
 			c.Count("blocks_compared", int64(len(t.Blocks)))
@@ -125,6 +144,8 @@ func runCampaign(c *ev.Ctx, o *campOpts) {
 			c.Count("exact_quorum_tallies_seen_by_reference", int64(t.Exact))
 			c.Count("blocks_with_cheaters", int64(t.CheatBlk))
 			c.Count("blocks_multi_event", int64(t.MultiEv))
+			c.Count("blocks_empty_same_atropos_twice", int64(t.EmptyBlk))
+			c.Count("frame_jump_roots", int64(t.JumpRoots))
 			c.Count("old_epoch_events_dropped_after_seal", int64(t.Skipped))
 			switch {
 			case len(t.Blocks) == 0:
